@@ -179,6 +179,6 @@ def run(ctx):
     ctx.info["random_hasher_iteration_sites"] = nrand
     r2(ctx, F)
     r3(ctx, F)
-    # thread-history clause: the thread-local depth counter is balanced (shared with C07.R11)
-    from rules.C07 import r11_depth_counter
-    r11_depth_counter(ctx, F, rule="C14.R4")
+    # thread-history clause: the thread-local depth counter is balanced (shared with C07.R2 guard balance)
+    from rules.C07 import r2b_guard_balance
+    r2b_guard_balance(ctx, F, rule="C14.R4")
